@@ -19,6 +19,30 @@ CHECKS = {
    technique="bounded-exhaustive enumeration of configurations and plugin capability lists; first message of each real connection parsed by an independent strict OPEN parser",
    text="Product of boundary local AS / hold time / router id values with all capability lists up to depth 2 (quick) / 3 (thorough) over a code x length alphabet, totals around the 255-octet limits and unrepresentable lists, both connection directions; the OPEN the real FSM writes is parsed strictly (all four nested lengths) and compared field by field with the configuration.",
    note="trusted: vinstr/vrt/vnet, wire.ParseOpenStrict; default schedule only"),
+ "C01": dict(level="model_checking", design="4/C01",
+   technique="stateless model checking of the implementation: delay-bounded exhaustive schedule exploration with happens-before caching, callback-history automaton on every execution",
+   text="The real corebgp (mechanically rewritten onto the vrt scheduler) is executed over the product of connection scripts (8 failure/success scripts on the first inbound and the first outbound connection), identifier dominance, active/passive mode, API tails (Close, DeletePeer, DeletePeer+AddPeer) and trigger points; for each scenario every schedule within the delay bound is enumerated and a monitor automaton checks OnEstablished/OnClose alternation and non-overlap, handler placement, GetCapabilities/OnOpenMessage per connection and session markers per connection. Complete inside the bound and the scenario set, silent outside.",
+   note="trusted: vinstr/vrt/vnet; bound 1 (quick) / 2 (thorough) deviations from the canonical schedule"),
+ "C07": dict(level="model_checking", design="4/C07",
+   technique="stateless model checking of the implementation: delay-bounded exhaustive schedule exploration of scripted two-connection collision scenarios",
+   text="For 4 identifier/AS configurations x both arrival orders x 4 scenario shapes the remote's script forces a collision (or a precedence situation) and all schedules within the delay bound (2 quick / 3 thorough) of the two FSMs, manager, readers are enumerated on the real code; the oracle names the connection that must survive per RFC 4271 6.8 / RFC 6286 and requires Cease+EOF on the other, an untouched survivor that establishes and still delivers UPDATEs.",
+   note="trusted: vinstr/vrt/vnet; dominance judged only where the remote's script removes TCP-level ambiguity"),
+ "C10": dict(level="model_checking", design="4/C10",
+   technique="stateless model checking of the implementation: API call injected at every step index x delay-bounded schedule exploration, vector-clock data-race detection on every execution",
+   text="Close/DeletePeer is issued at every step index of the default execution (and at the first quiescent point) of 14 connection scripts covering every FSM state in both directions, collision, damping, active writers, reconnect and a by-stander peer; around each trigger all schedules within the delay bound are enumerated on the real code. Oracles: bounded virtual latency, Serve return value, every library connection closed, Cease before EOF on healthy connections, callback monitor, goroutine-leak rule at a post-return quiescent cut, and a FastTrack-style race detector fed by instrumented field/array/map accesses on every execution.",
+   note="trusted: vinstr/vrt/vnet; race detector scope A5; bound 1 (quick) / 2 (thorough)"),
+ "C15": dict(level="exploration", design="4/C15",
+   technique="bounded-exhaustive input enumeration of codec values and byte strings vs independent reference encoder / strict parser (white-box through a generated export shim)",
+   text="All (code, subcode) x short data and every data length 0..4075 for NOTIFICATION, boundary products of OPEN fields x parameter/capability layouts incl. the 255-octet limits, all byte strings up to length 7 over a protocol alphabet and all single-octet substitutions/length mutations/truncations for the decoders, all add-path tuple lists up to 3 and the full AFI x SAFI grid: round-trip both ways, equality with a reference encoding, strictness against wire.ParseOpenStrict.",
+   note="trusted: the trivial wrappers in export/zz_verif_export.go.txt, refmodel/codec.go, wire"),
+ "C18": dict(level="exploration", design="4/C18",
+   technique="bounded-exhaustive input enumeration of the 11 exported attribute decoders vs an RFC-derived reference table",
+   text="Per decoder: all 256 flag octets x values (all short values, every length 0..72 and boundary lengths to 4096, every octet of a well-sized value over all 256 values), AS_PATH segment lists up to 3 with every truncation, multiples/non-multiples for set attributes; oracle = (Optional, Transitive, length/value rule, RFC 7606 approach, RFC 4271 subcode) table with set-valued verdicts where two faults coincide.",
+   note="trusted: refmodel/attrs.go; D12 (ATOMIC_AGGREGATE Optional bit) is a recorded known finding"),
+ "C19": dict(level="exploration", design="4/C19",
+   technique="bounded-exhaustive input enumeration of prefix-list and MP splitters vs an independent reference codec",
+   text="All IPv4 prefix lists up to 3 / IPv6 up to 2 with every length, add-path ids, every truncation and length-octet corruption through all seven exported entry points; MP_REACH for every next-hop length octet 0..255 x body-length relations x flags, MP_UNREACH, IPv6 next hops of every length: exact (id, length, leading bits) sequences, whole-field consumption, failure conditions and notifications.",
+   note="trusted: refmodel/prefix.go"),
 }
 
 NOT_YET = "check not built yet (framework under construction; see DESIGN.md section 8)"
